@@ -106,6 +106,14 @@ def run(ctx):
         owner = c.fn.id
         root = c.fn.root or owner
         reason = allowed.get((owner, api)) or allowed.get((root, api))
+        if not reason:
+            # tolerate a move of the function inside its module (e.g. a nested fn hoisted to module level)
+            def modname(x):
+                parts = x.replace("<", "").split("::")
+                return (tuple(parts[:2]), parts[-1])
+            for (fn_, api_), why in allowed.items():
+                if api_ == api and modname(fn_) == modname(root):
+                    reason = why
         r.instance("R15-a", "%s -> %s" % (short(owner), api), "allowed" if reason else "violation", c.loc(), reason or "")
         if not reason:
             r.violation("R15-a", "ambient input: %s calls %s" % (short(owner), api),
